@@ -214,13 +214,52 @@ fn digest(b: &[u8]) -> String {
     format!("{:016x}:{}", h, b.len())
 }
 
+/// the same bytes through the generic opener (`GenericBBIRead::open`): which file type it reports and its chromosome table
+pub fn observe_generic(ctx: &mut Ctx, bytes: &[u8]) -> J {
+    use bigtools::{BBIRead, GenericBBIRead};
+    match GenericBBIRead::open(std::io::Cursor::new(bytes.to_vec())) {
+        Ok(g) => {
+            let kind = match &g { GenericBBIRead::BigWig(_) => "bw", GenericBBIRead::BigBed(_) => "bb" };
+            let chroms: Vec<J> = g.chroms().iter().map(|c| json!([ctx.chrom_idx(&c.name), ctx.pos_out(c.length)])).collect();
+            json!({"kind": kind, "chroms": chroms})
+        }
+        Err(_) => json!({"kind": "err", "chroms": []}),
+    }
+}
+
+/// every range query of a file, in nested ascending order or (qorder = "shuffle") in a seeded permutation, so that a
+/// reader with state between calls (caches, remembered positions) meets non-monotonic sequences too
+pub fn query_plan(c: &J, chroms: &[(String, u32)], ctx: &mut Ctx, empty_ok: bool) -> Vec<(String, i64, i64)> {
+    let mut plan = vec![];
+    for (n, l) in chroms.iter() {
+        let lm = ctx.pos_out(*l);
+        for s in 0..=lm {
+            let lo = if empty_ok { s } else { s + 1 };
+            for e in lo..=lm {
+                plan.push((n.clone(), s, e));
+            }
+        }
+    }
+    if c["qorder"].as_str().unwrap_or("asc") == "shuffle" {
+        let mut x: u64 = 0x9E3779B97F4A7C15 ^ (plan.len() as u64);
+        for i in (1..plan.len()).rev() {
+            x ^= x << 13; x ^= x >> 7; x ^= x << 17;
+            plan.swap(i, (x % (i as u64 + 1)) as usize);
+        }
+    }
+    plan
+}
+
 pub fn observe_bw(c: &J, ctx: &mut Ctx, bytes: Vec<u8>) -> J {
     let d = digest(&bytes);
+    let generic = observe_generic(ctx, &bytes);
     let r = match BigWigRead::open(std::io::Cursor::new(bytes)) {
         Ok(r) => r,
         Err(e) => return json!({"result": "openerr", "err": e.to_string()}),
     };
-    if c["cached"].as_i64().unwrap_or(0) == 1 { observe_bw_r(c, ctx, r.cached(), d) } else { observe_bw_r(c, ctx, r, d) }
+    let mut o = if c["cached"].as_i64().unwrap_or(0) == 1 { observe_bw_r(c, ctx, r.cached(), d) } else { observe_bw_r(c, ctx, r, d) };
+    o["generic"] = generic;
+    o
 }
 
 pub fn observe_bw_r<R: bigtools::BBIFileRead>(c: &J, ctx: &mut Ctx, mut r: BigWigRead<R>, d: String) -> J {
@@ -286,10 +325,9 @@ pub fn observe_bw_r<R: bigtools::BBIFileRead>(c: &J, ctx: &mut Ctx, mut r: BigWi
     // range queries
     let mut qs = vec![];
     if c["allq"].as_i64().unwrap_or(0) == 1 {
-        for (n, l) in chroms.iter() {
-            let lm = ctx.pos_out(*l);
-            for s in 0..=lm {
-                for e in s..=lm {
+        for (n, s, e) in query_plan(c, &chroms, ctx, true).iter().map(|q| (&q.0, q.1, q.2)) {
+            {
+                {
                     let (ss, ee) = (ctx.pos_in(s), ctx.pos_in(e));
                     let mut iv = vec![];
                     match r.get_interval(n, ss, ee) {
@@ -330,11 +368,14 @@ pub fn observe_bw_r<R: bigtools::BBIFileRead>(c: &J, ctx: &mut Ctx, mut r: BigWi
 
 pub fn observe_bb(c: &J, ctx: &mut Ctx, bytes: Vec<u8>) -> J {
     let d = digest(&bytes);
+    let generic = observe_generic(ctx, &bytes);
     let r = match BigBedRead::open(std::io::Cursor::new(bytes)) {
         Ok(r) => r,
         Err(e) => return json!({"result": "openerr", "err": e.to_string()}),
     };
-    if c["cached"].as_i64().unwrap_or(0) == 1 { observe_bb_r(c, ctx, r.cached(), d) } else { observe_bb_r(c, ctx, r, d) }
+    let mut o = if c["cached"].as_i64().unwrap_or(0) == 1 { observe_bb_r(c, ctx, r.cached(), d) } else { observe_bb_r(c, ctx, r, d) };
+    o["generic"] = generic;
+    o
 }
 
 pub fn observe_bb_r<R: bigtools::BBIFileRead>(c: &J, ctx: &mut Ctx, mut r: BigBedRead<R>, d: String) -> J {
@@ -424,10 +465,9 @@ pub fn observe_bb_r<R: bigtools::BBIFileRead>(c: &J, ctx: &mut Ctx, mut r: BigBe
     obs["zint"] = json!(if zint {1} else {0});
     let mut qs = vec![];
     if c["allq"].as_i64().unwrap_or(0) == 1 {
-        for (n, l) in chroms.iter() {
-            let lm = ctx.pos_out(*l);
-            for s in 0..lm {
-                for e in (s + 1)..=lm {
+        for (n, s, e) in query_plan(c, &chroms, ctx, false).iter().map(|q| (&q.0, q.1, q.2)) {
+            {
+                {
                     let mut ids = vec![];
                     let mut qerr = 0;
                     match r.get_interval(n, ctx.pos_in(s), ctx.pos_in(e)) {
